@@ -466,7 +466,7 @@ func init() {
 				n = (len(g.Trees)+c14Chunk-1)/c14Chunk + (len(g.Layers)+999)/1000 + (len(g.Order)+999)/1000 + 1
 			}
 			if tier == "quick" {
-				return n + 2500
+				return n + 6000
 			}
 			return n + 250000
 		},
